@@ -106,12 +106,29 @@ void dsim_scenario() {
     dsim::plan_note("workers=%d stop_mode=%d", nworkers, stop_mode);
     for (int s = 0; s < nsub; s++) { dsim::plan_note(" S%d:", s); for (int k = 0; k < njobs[s]; k++) dsim::plan_note("%d", kinds[s][k]); }
     std::vector<Pending> (&bare)[3] = bare_store;
+    // submitter 0 first hands in a job that waits for the job it hands in next. Only where the pool is stopped after both have run:
+    // stop() joins the workers before it discards the queue, so a job blocked on a still queued one is the application's deadlock, not the pool's
+    bool dependent = nworkers >= 2 && stop_mode == 0 && dsim::flip();
+    int dep_p = total, dep_q = total + 1; if (dependent) total += 2;
+    dsim::plan_note(" dependent=%d", (int)dependent);
     int jid[3][3]; { int j = 0; for (int s = 0; s < nsub; s++) for (int k = 0; k < njobs[s]; k++) jid[s][k] = j++; }
     {
         auto pool = std::make_unique<cocls::thread_pool>(nworkers);
         if (stop_mode == 4) do_stop(*pool);
         std::vector<std::thread> th;
-        for (int s = 0; s < nsub; s++) th.emplace_back([&, s] { for (int k = 0; k < njobs[s]; k++) submit(*pool, kinds[s][k], jid[s][k], stop_mode, bare[s]); });
+        for (int s = 0; s < nsub; s++) th.emplace_back([&, s] {
+            if (s == 0 && dependent) {
+                cocls::future<void> dep; auto dp = dep.get_promise();
+                auto tp = std::make_shared<Token>(dep_p); auto tq = std::make_shared<Token>(dep_q);
+                dsim::cell_set(KIND + dep_p, 4); dsim::cell_set(KIND + dep_q, 4);
+                cocls::thread_pool &pl = *pool;
+                pl.run_detached([&pl, &dep, j = dep_p, tp] { ran(pl, j); dep.sync(); });                         // occupies its worker until ...
+                pl.run_detached([&pl, j = dep_q, tq, dp = std::move(dp)]() mutable { ran(pl, j); dp(); });       // ... this one has run (or was cancelled: the dropped promise resolves too)
+                tp.reset(); tq.reset();
+                dsim::wait_cell(TOKEN_GONE + dep_p); dsim::wait_cell(TOKEN_GONE + dep_q);                        // both closures are gone before 'dep' leaves scope
+            }
+            for (int k = 0; k < njobs[s]; k++) submit(*pool, kinds[s][k], jid[s][k], stop_mode, bare[s]);
+        });
         std::vector<std::thread> stoppers;
         if (stop_mode == 1 || stop_mode == 3) stoppers.emplace_back([&] { do_stop(*pool); });
         if (stop_mode == 3) stoppers.emplace_back([&] { do_stop(*pool); });
